@@ -80,6 +80,127 @@ def _interp_reconstruct(ctx: Ctx, model) -> List[str]:
     return problems
 
 
+def _interp_pairing(ctx: Ctx, model) -> List[str]:
+    """_reconstruct_modulus_data interpreted with the real worker (interpreted too), two interpolations × two smoothings of
+    distinguishable stand-in interpolators, serially and through a pool stand-in that hands results back in reverse order:
+    every (interpolation, smoothing) pair yields exactly one reconstruction, computed from that pair's interpolator and its
+    first derivative, and paired with that pair's simulated phase and keys."""
+    from ..miniinterp import InterpRaise, Mini, module_globals
+    from ..nplite import NP_STUBS, NArr
+    Int = sp.Function("Int")
+
+    class _Interp:
+        def __init__(self, tag, order=0):
+            self.tag, self.order = tag, order
+
+        def __call__(self, x, *a, **k):
+            fn = sp.Function(f"{'d' * self.order}phi_{self.tag}")
+            return NArr(fn(v) for v in x) if isinstance(x, (NArr, list, tuple)) else fn(x)
+
+        def derivative(self, n=1):
+            return _Interp(self.tag, self.order + n)
+
+    class _Pool:
+        def __init__(self, *a, **k): pass
+        def __enter__(self): return self
+        def __exit__(self, *a): return False
+        def imap_unordered(self, f, it, *a, **k): return list(reversed([f(x) for x in it]))
+        def imap(self, f, it, *a, **k): return [f(x) for x in it]
+        def map(self, f, it, *a, **k): return [f(x) for x in it]
+
+    class _Prog:
+        def set_message(self, *a, **k): pass
+        def increment(self, *a, **k): pass
+
+    class _CM:
+        def __enter__(self): return self
+        def __exit__(self, *a): return False
+    rm = model.fi(REC, "_reconstruct_modulus_data")
+    problems: List[str] = []
+    for num_procs in (1, 2):
+        opts = {i: {s_: _Interp(f"{i}_{s_}") for s_ in ("s1", "s2")} for i in ("i1", "i2")}
+        phases = {i: {s_: f"phase[{i}][{s_}]" for s_ in ("s1", "s2")} for i in ("i1", "i2")}
+        ws = [sp.Symbol(f"w{k}", real=True) for k in range(2)]
+        st = dict(NP_STUBS)
+        st.update({"quad": lambda f, a=None, b=None, *r, **k: (Int(sp.Symbol(f"{'d' * f.order}phi_{f.tag}") if isinstance(f, _Interp) else sp.Symbol("other"), a, b), 0.0),
+                   "pi": sp.pi, "catch_warnings": _CM, "filterwarnings": lambda *a, **k: None, "IntegrationWarning": "IntegrationWarning", "print": lambda *a, **k: None,
+                   "Pool": _Pool, "NDArray": None, "Phases": None, "Progress": None})
+        g = module_globals(ctx.repo.modules[REC].tree, st)
+        g.update(st)
+        params = [a.arg for a in rm.node.args.args]
+        vals = {"interpolation_options": opts, "simulated_phase": phases, "ln_omega": NArr(ws), "admittance": False, "num_procs": num_procs, "prog": _Prog()}
+        if set(params) != set(vals):
+            raise AnalysisError(f"_reconstruct_modulus_data: parameters {params} not understood")
+        try:
+            out = Mini(g, max_steps=400000).call_function(rm.node, vals)
+        except InterpRaise as e:
+            problems.append(f"num_procs={num_procs}: _reconstruct_modulus_data raises {e.kind} ({e.message[:60]})")
+            continue
+        seen = []
+        for item in list(out):
+            if not (isinstance(item, tuple) and len(item) == 4):
+                problems.append(f"num_procs={num_procs}: a reconstruction is {str(item)[:60]} instead of (ln_modulus, phase, smoothing, interpolation)")
+                break
+            ln, ph, s_, i = item
+            seen.append((i, s_))
+            tag = f"{i}_{s_}"
+            names = {str(f_.func) for v in ln for f_ in sp.sympify(v).atoms(sp.Function) if not isinstance(f_, Int)} | {str(x) for v in ln for a_ in sp.sympify(v).atoms(Int) for x in a_.args[:1]}
+            if ph != phases.get(i, {}).get(s_):
+                problems.append(f"num_procs={num_procs}: the reconstruction reported under ({i}, {s_}) is paired with {ph}")
+            elif names != {f"phi_{tag}", f"dphi_{tag}"}:
+                problems.append(f"num_procs={num_procs}: the reconstruction reported under ({i}, {s_}) was computed from {sorted(names)} instead of that entry's interpolator and its first derivative")
+        if not problems and sorted(seen) != sorted((i, s_) for i in opts for s_ in opts[i]):
+            problems.append(f"num_procs={num_procs}: reconstructions for {sorted(seen)} instead of one per (interpolation, smoothing) pair")
+    return problems
+
+
+def _interp_weights(ctx: Ctx, model) -> List[str]:
+    """_generate_weights interpreted (sa.miniinterp + sa.nplite) with a stand-in interpolator whose raw values fall below 0,
+    inside (0, 1) and above 1: the result is 0 outside [center − width/2, center + width/2] (bounds included in the support)
+    and the raw value clipped to [0, 1] inside, one weight per frequency."""
+    import math
+    from ..miniinterp import ExcValue, InterpRaise, Mini, module_globals
+    from ..nplite import NP_STUBS, NArr
+    gw = model.fi(WGT, "_generate_weights")
+    raw = lambda lf: 1.9 * lf - 0.2
+
+    class _Ak:
+        def __init__(self, x, y, *a, **k):
+            self.x, self.y = list(x), list(y)
+            if len(self.x) != len(self.y):
+                raise ValueError("x and y arrays must be equal in length")
+
+        def __call__(self, v, *a, **k):
+            return NArr(raw(t) for t in v) if isinstance(v, (NArr, list, tuple)) else raw(v)
+    st = dict(NP_STUBS)
+    st.update({"Akima1DInterpolator": _Ak, "_WINDOW_FUNCTIONS": {"boxcar": (lambda M, sym=True: [1.0] * M)}, "ZHITError": lambda *a: ExcValue("ZHITError", a),
+               "ceil": math.ceil, "floor": math.floor, "log": (lambda v: NArr(math.log(t) for t in v) if isinstance(v, (NArr, list, tuple)) else math.log(v)),
+               "log10": (lambda v: NArr(math.log10(t) for t in v) if isinstance(v, (NArr, list, tuple)) else math.log10(v)),
+               "logspace": lambda a, b, num=50, **k: NArr(10 ** (a + (b - a) * i / (num - 1)) for i in range(num)),
+               "linspace": lambda a, b, num=50, **k: NArr(a + (b - a) * i / (num - 1) for i in range(num)),
+               "clip": lambda a, lo, hi, **k: NArr(min(max(v, lo), hi) for v in a), "minimum": lambda a, b: NArr(min(v, b) for v in a), "maximum": lambda a, b: NArr(max(v, b) for v in a),
+               "NDArray": None})
+    g = module_globals(ctx.repo.modules[WGT].tree, st)
+    g.update(st)
+    problems: List[str] = []
+    for log_f, center, width in (([-1.0, 0.0, 0.25, 0.5, 1.0, 2.0, 2.5, 3.5], 1.0, 2.0), ([3.0, 1.5, 0.4], 1.5, 1.0), ([0.7], 5.0, 1.0)):
+        try:
+            out = Mini(g, max_steps=400000).call_function(gw.node, {"log_f": NArr(log_f), "window": "boxcar", "center": center, "width": width})
+            got: Any = [float(v) for v in out]
+        except InterpRaise as e:
+            got = f"raises {e.kind}"
+        lo, hi = center - width / 2, center + width / 2
+        want = [min(max(raw(v), 0.0), 1.0) if lo <= v <= hi else 0.0 for v in log_f]
+        if got != want and (isinstance(got, str) or len(got) != len(want) or any(abs(a - b) > 1e-12 for a, b in zip(got, want))):
+            problems.append(f"for log f = {log_f}, centre {center}, width {width} (interpolated window values {[round(raw(v), 2) for v in log_f]}) the weights are {got} instead of {want}")
+    try:
+        Mini(g).call_function(gw.node, {"log_f": NArr([1.0]), "window": "no such window", "center": 1.0, "width": 1.0})
+        problems.append("an unknown window name is not refused")
+    except InterpRaise:
+        pass
+    return problems
+
+
 def check(ctx: Ctx) -> None:
     model = get_model(ctx.repo)
     ctx.modules_consulted.update({REC, OFF, WGT, Z})
@@ -278,6 +399,18 @@ def _rest(ctx: Ctx, model, rc) -> None:
         ctx.ok()
     else:
         ctx.violation("R11.3", "_adjust_offset:assembly", OFF, ao.node, "the fitted immittance must be rect(exp(reconstruction + fitted offset), phase)")
+    pairing_done = True
+    try:
+        pprobs = _interp_pairing(ctx, model)
+    except AnalysisError as e:
+        pairing_done = False
+        ctx.note(f"_reconstruct_modulus_data not interpretable ({e}); pairing decided from the shape of the code instead")
+    if pairing_done:
+        ctx.instance("R11.3", "_reconstruct_modulus_data interpreted with the real worker on 2×2 distinguishable interpolators, serial and pooled (results handed back in reverse order)")
+        if pprobs:
+            ctx.violation("R11.3", "phase-pairing", REC, rm.node, "a reconstruction must be paired with the phase simulated by the very interpolator (interpolation, smoothing) it was computed from: " + pprobs[0])
+        else:
+            ctx.ok()
     ctx.instance("R11.3", "the phase paired with a reconstruction is simulated_phase[interpolation][smoothing] of the keys the worker returns")
     apps = [c for c in calls_in(rm.node) if norm(c.func) == "reconstructions.append" and c.args and isinstance(c.args[0], ast.Tuple)]
     rets = [n for n in walk_ordered(rc.node) if isinstance(n, ast.Return)]
@@ -285,6 +418,8 @@ def _rest(ctx: Ctx, model, rc) -> None:
         and len(rets) == 1 and norm(rets[0].value) == "(array(ln_modulus), smoothing, interpolation)"
     loops = [n for n in walk_ordered(rm.node) if isinstance(n, ast.For) and norm(n.target) == "(ln_modulus, smoothing, interpolation)"]
     good = good and len(loops) == len(apps)
+    if pairing_done:
+        good = True  # decided above by interpretation; what remains is where the simulated phase comes from
     gi = model.fi(f"{Z}.interpolation", "_generate_interpolation_options")
     ti_ = norm(gi.node)
     good = good and "simulated_phase[interpolation][smoothing] = array(list(map(interpolator, ln_omega)))" in ti_ and "interpolation_options[interpolation][smoothing] = interpolator" in ti_
@@ -304,8 +439,18 @@ def _rest(ctx: Ctx, model, rc) -> None:
     # ---------------- R11.4 ---------------------------------------------------------
     gw = model.fi(WGT, "_generate_weights")
     t = norm(gw.node)
+    try:
+        wprobs = _interp_weights(ctx, model)
+        ctx.instance("R11.4", "_generate_weights interpreted on three grids with a stand-in interpolator (raw values below 0, inside and above 1; points on and outside the bounds)")
+        if wprobs:
+            ctx.violation("R11.4", "_generate_weights:support", WGT, gw.node, "weights must vanish outside [center − width/2, center + width/2] and be clipped to [0, 1]: " + wprobs[0])
+        else:
+            ctx.ok()
+        t = ""
+    except AnalysisError as e:
+        ctx.note(f"_generate_weights not interpretable ({e}); decided from its shape instead")
     ctx.instance("R11.4", "window support and clipping")
-    good = "min_log_f: float = center - width / 2" in t and "max_log_f: float = center + width / 2" in t \
+    good = t == "" or "min_log_f: float = center - width / 2" in t and "max_log_f: float = center + width / 2" in t \
         and "if not min_log_f <= lf <= max_log_f:\n            continue" in t.replace("        if not min_log_f", "if not min_log_f") \
         and "indices = where(weights < 0.0)[0]" in t and "weights[indices] = 0.0" in t and "indices = where(weights > 1.0)[0]" in t and "weights[indices] = 1.0" in t
     if good:
